@@ -145,6 +145,9 @@ void run(Ctx &ctx) {
     {
         Runner<char> sa(&ctx, &lc, 520, 1620); Runner<wchar_t> sb(&ctx, &lc, 520, 1620); uint64_t si = 0; std::vector<int> L = stretch_lengths(ctx.secondary ? 0 : ctx.quick() ? 1 : 2);
         for (const char *u : { "a", " ", "\n", "\r", "\r\n", "\xff", "%", "a \n" }) for (int n : L) { if (!ctx.mine(si++) || ctx.expired()) continue; Str s; for (int i = 0; i < n; i++) s += u; if (s.size() > 66000) continue; sa.escape_case(s); sb.escape_case(s); ctx.st.count("stretch_family"); }
+        // a decoded triplet (the text gets shorter) in front of, between and behind long plain runs: bulk moves of what follows
+        for (const char *pre : { "%41", "%0D%0A", "+%41", "%4g%41" }) for (int n : L) { if (!ctx.mine(si++) || ctx.expired()) continue; Str run; for (int i = 0; i < n; i++) run += (char)('a' + i % 26);
+            for (const Str &s : { Str(pre) + run, run + pre + run, Str(pre) + run + "%4", run + "%0A" + run + "%0D%0A" }) { sa.unescape_case(s); sb.unescape_case(s); } ctx.st.count("stretch_family"); }
         for (const char *u : { "%41", "%0D%0A", "%0d", "%0A", "%", "+", "a", "%4", "%4g%41" }) for (int n : L) { if (!ctx.mine(si++) || ctx.expired()) continue; Str s; for (int i = 0; i < n; i++) s += u; sa.unescape_case(s); sb.unescape_case(s); ctx.st.count("stretch_family"); }
     }
     // wchar_t only: escaping code points above 255.  The statement's round trip ("restores the original characters") has no exception
